@@ -9,3 +9,4 @@ INVARIANT PrefixIsSmaller
 INVARIANT EmptySpecIsToStr
 CHECK_DEADLOCK FALSE
 INVARIANT StrWidthReached
+INVARIANT FloatWidthReached
